@@ -206,6 +206,9 @@ func ownBiasAfterDisabledEntry(o *Out, r *Rng, methods []string, own string, n i
 			pos = 0
 		}
 		dis := J{"name": []string{"criteriaOmission", "fatigue", "preferenceReversal", "anchoring"}[r.Intn(4)], "disabled": true, "props": J{}}
+		if r.chance(0.6) { // switched off AND with a probability of its own: neither may rub off on the next entry
+			dis["applyProbability"] = []float64{0, 0.25}[r.Intn(2)]
+		}
 		with := append(append(append([]interface{}{}, bl[:pos]...), dis), bl[pos:]...)
 		q.Body["biases"] = with
 		varied := q.JSON()
